@@ -364,6 +364,10 @@ type Network struct {
 	wantHost *SimNode
 	leaving  map[int]*ItxRecord
 	joinDirect func(target string, args *bnet.JoinRequest, resp *bnet.JoinResponse) error
+	inHook  bool
+	puppets map[int]*Puppet
+	// AfterStepHook, if set, runs after every step before the monitors
+	AfterStepHook func(nw *Network)
 	lastEagerFailed bool
 	idleAfterFair bool
 	lostPool map[int]bool // nodes that were restarted (their pending pool is legitimately gone)
@@ -473,8 +477,7 @@ func (nw *Network) GenesisNodes(n int, opts NodeOpts, puppets map[int]bool) {
 	nw.Genesis = ps
 	for i, sn := range ids {
 		if puppets != nil && puppets[i] {
-			sn.Puppet = true
-			sn.Up = true
+			nw.makePuppet(sn)
 			continue
 		}
 		nw.startNode(sn, opts, clonePeers(ps), clonePeers(ps))
@@ -676,6 +679,11 @@ func (nw *Network) afterStep() {
 	nw.resolveJoins()
 	nw.pollItxs()
 	nw.Rec.observe()
+	if nw.AfterStepHook != nil && !nw.inHook {
+		nw.inHook = true
+		nw.AfterStepHook(nw)
+		nw.inHook = false
+	}
 	for _, m := range nw.Mons {
 		if nw.stopped {
 			break
